@@ -124,6 +124,11 @@ VALIDATORS = [
 ]
 
 
+def pre(ctx):
+    from ._shared import no_runtime_module_state
+    no_runtime_module_state(ctx, 'D1', ('datadir', 'utils', 'array', 'numtype'))
+
+
 def run(ctx):
     reader, rcall = find_reader(ctx)
     ctx.info['descriptor_reader'] = reader.qualname
